@@ -282,6 +282,9 @@ def impl_det(case):
         else:
             out.update(kind="coll", sparse=[(int(i.left), int(i.right)) for i in y["ilocs"]], dense=[int(v) for v in d["labels"].to_numpy()],
                        back=[(int(i.left), int(i.right)) for i in back["ilocs"]])
+        if "labels" in y:  # the labels predict itself reports for the anomalies (the property speaks about these)
+            out["labels"] = [int(v) for v in y["labels"]]
+            out["back_labels"] = [int(v) for v in back["labels"]] if "labels" in back else None
         return out
     except Exception as ex:
         return {"outcome": "other:" + type(ex).__name__, "msg": str(ex)[:200]}
@@ -294,12 +297,15 @@ def oracle_det(case, r):
     if not r["index_ok"]:
         return f"transform(X) does not carry X's {case['index']} index ({case['det']})"
     sp = r["sparse"]
+    lab = r.get("labels") if r.get("labels") is not None and r["kind"] != "cp" else list(range(1, len(sp) + 1))
+    if r["kind"] != "cp" and r.get("labels") is not None and (len(lab) != len(sp) or r.get("back_labels") != lab):
+        return f"{case['det']}: predict labels the anomalies {lab}; dense_to_sparse(transform(X)) labels them {r.get('back_labels')}"
     if r["kind"] == "cp":
         want = [sum(1 for c in sp if c <= i) for i in range(n)]
     elif r["kind"] == "coll":
-        want = [next((k + 1 for k, (a, b) in enumerate(sp) if a <= i < b), 0) for i in range(n)]
+        want = [next((lab[k] for k, (a, b) in enumerate(sp) if a <= i < b), 0) for i in range(n)]
     else:
-        want = [[next((k + 1 for k, ((a, b), cols) in enumerate(sp) if a <= i < b and j in cols), 0) for j in range(case["p"])] for i in range(n)]
+        want = [[next((lab[k] for k, ((a, b), cols) in enumerate(sp) if a <= i < b and j in cols), 0) for j in range(case["p"])] for i in range(n)]
         if r["cols"] != r["want_cols"]:
             return f"dense columns {r['cols']}, expected {r['want_cols']}"
     if r["dense"] != want:
